@@ -1,13 +1,120 @@
 import CnlModel.Rep
 /-!
-# rounding tags (placeholder: native only; the other modes arrive with C08)
+# rounding tags: `rounding/{nearest,tie_to_pos_inf,neg_inf,native}_rounding_tag.h`
+
+Only division is special; every other operator under a rounding tag is the operator of the
+representation.  Written against `RepOps` so the representation may be any number type.
 -/
 namespace Cnl.Rounding
 
+def lit (v : Int) : Num := (.int i32, v)
+
+/-- `_impl::abs(value)`: `static_cast<T>((value < 0) ? -value : +value)` for signed `T`, identity
+for unsigned `T` -/
+def absNum (R : RepOps) (isSigned : Bool) (x : Num) : Res Num :=
+  if !isSigned then .ok x else do
+    let neg ← R.cmp .lt x (lit 0)
+    let v ← if neg then R.neg x else R.pos x
+    R.cast x.1 v
+
+/-- `nearest_rounding_tag` division: the truncated quotient is moved away from zero when twice
+the remainder reaches the divisor (comparisons arranged so that no intermediate overflows) -/
+def divNearest (R : RepOps) (resultTy : Ty) (x y : Num) : Res Num := do
+  let q0 ← R.bin .div x y
+  let quotient ← R.cast resultTy q0
+  let rem ← R.bin .mod x y
+  let remNeg ← R.cmp .lt rem (lit 0)
+  let rn ← R.cmp .lt y (lit 0)
+  let away ← (if remNeg then
+      (if rn then do
+        let d ← R.bin .sub y rem          -- remainder <= rhs - remainder
+        R.cmp .le rem d
+      else do
+        let n ← R.neg rem                 -- -remainder >= rhs + remainder
+        let s ← R.bin .add y rem
+        R.cmp .ge n s)
+    else
+      (if rn then do
+        let s ← R.bin .add y rem          -- rhs + remainder >= -remainder
+        let n ← R.neg rem
+        R.cmp .ge s n
+      else do
+        let d ← R.bin .sub y rem          -- remainder >= rhs - remainder
+        R.cmp .ge rem d) : Res Bool)
+  let nz ← R.cmp .ne rem (lit 0)
+  if nz && away then do
+    let ln ← R.cmp .lt x (lit 0)
+    let rn' ← R.cmp .lt y (lit 0)
+    let adj ← if ln != rn' then R.bin .sub quotient (lit 1) else R.bin .add quotient (lit 1)
+    R.cast resultTy adj
+  else pure quotient
+
+/-- `tie_to_pos_inf_rounding_tag` division: floor division, then one up when twice the
+(divisor-signed) remainder reaches the divisor -/
+def divTiesUp (R : RepOps) (resultTy : Ty) (x y : Num) : Res Num := do
+  let q0 ← R.bin .div x y
+  let truncated ← R.cast resultTy q0
+  let rem ← R.bin .mod x y
+  let nz ← R.cmp .ne rem (lit 0)
+  let remNeg ← R.cmp .lt rem (lit 0)
+  let rn ← R.cmp .lt y (lit 0)
+  let borrow := nz && (remNeg != rn)
+  let quotient ← (if borrow then do
+      let t ← R.bin .sub truncated (lit 1)
+      R.cast resultTy t
+    else pure truncated : Res Num)
+  let rn2 ← R.cmp .lt y (lit 0)
+  let up ← (if borrow then
+      (if rn2 then do
+        let s ← R.bin .add rem y          -- remainder + rhs <= -remainder
+        let n ← R.neg rem
+        R.cmp .le s n
+      else do
+        let s ← R.bin .add rem y          -- remainder + rhs >= -remainder
+        let n ← R.neg rem
+        R.cmp .ge s n)
+    else
+      (if rn2 then do
+        let d ← R.bin .sub y rem          -- remainder <= rhs - remainder
+        R.cmp .le rem d
+      else do
+        let d ← R.bin .sub y rem          -- remainder >= rhs - remainder
+        R.cmp .ge rem d) : Res Bool)
+  let nz2 ← R.cmp .ne rem (lit 0)
+  if nz2 && up then do
+    let t ← R.bin .add quotient (lit 1)
+    R.cast resultTy t
+  else pure quotient
+
+/-- `neg_inf_rounding_tag` division -/
+def divNegInf (R : RepOps) (resultTy : Ty) (x y : Num) : Res Num := do
+  let rem0 ← R.bin .mod x y
+  let rem ← R.cast resultTy rem0
+  let nz ← R.cmp .ne rem (lit 0)
+  let remNeg ← R.cmp .lt rem (lit 0)
+  let rn ← R.cmp .lt y (lit 0)
+  let q0 ← R.bin .div x y
+  let q ← R.cast resultTy q0
+  if nz && (remNeg != rn) then do
+    let q1 ← R.bin .sub q (lit 1)
+    R.cast resultTy q1
+  else pure q
+
+def signedOfInt : Ty → Bool
+  | .int t => t.signed
+  | _ => true
+
+/-- result type `decltype(lhs / rhs)` for built-in representations -/
+def divResultTy (x y : Num) : Ty :=
+  match x.1, y.1 with
+  | .int a, .int b => .int (usualArith a b)
+  | t, _ => t
+
 def binOp (R : RepOps) (mode : RdMode) (op : BinOp) (x y : Num) : Res Num :=
-  match mode, op with
-  | .nat, _ => R.bin op x y
-  | _, .div => .ill "rounding division: not yet modelled"
+  match op, mode with
+  | .div, .nrst => divNearest R (divResultTy x y) x y
+  | .div, .tpi => divTiesUp R (divResultTy x y) x y
+  | .div, .ninf => divNegInf R (divResultTy x y) x y
   | _, _ => R.bin op x y
 
 end Cnl.Rounding
